@@ -84,7 +84,19 @@ def run_flow(ctx, extra_env=None):
     ops = os.path.join(ctx["work"], "ops.jsonl")
     p = run_harness(ctx, exe, ops, extra_env)
     if p.returncode != 0:
-        res["violations"].append({"kind": "harness-error", "sig": "harness", "detail": "harness failed rc=%d: %s" % (p.returncode, (p.stderr or p.stdout)[-1500:]),
+        err = p.stderr or p.stdout or ""
+        m = re.search(r"fatal error: (concurrent map[^\n]*)", err)
+        if m:
+            # the Go runtime detected unsynchronised access to a shared map and killed the process: that *is* the
+            # observation "concurrent compilations share mutable state"
+            fns = re.findall(r"^(oss\.terrastruct\.com/d2/[^\s(]+(?:\([^)]*\))?[^\s(]*)\(", err, re.M)
+            rops = os.path.join(ctx["work"], "fatal-race.jsonl")
+            with open(rops, "w") as f:
+                f.write(json.dumps({"k": "race", "in": {"functions": "|".join(fns[:2]), "fatal": m.group(1)},
+                                    "out": {"report": "fatal error: " + m.group(1) + " in " + " <- ".join(fns[:4])}}) + "\n")
+            collect(rops, drive(ctx, rops, "fatalrace"), res)
+            return res
+        res["violations"].append({"kind": "harness-error", "sig": "harness", "detail": "harness failed rc=%d: %s" % (p.returncode, err[-1500:]),
                                   "case": None, "theorem": "correspondence:" + ctx["pid"]})
         return res
     collect(ops, drive(ctx, ops, "main"), res)
